@@ -81,6 +81,11 @@ func (d *Desc) of(v ssa.Value, depth int, seen map[ssa.Value]bool) string {
 	case *ssa.UnOp:
 		switch x.Op {
 		case token.MUL:
+			if a, ok := x.X.(*ssa.Alloc); ok {
+				if st := reachingStore(a, x); st != nil {
+					return rec(st.Val)
+				}
+			}
 			return rec(x.X)
 		case token.NOT:
 			return "!" + rec(x.X)
@@ -295,4 +300,37 @@ func FreeVarBinding(fv *ssa.FreeVar) ssa.Value {
 		}
 	}
 	return found
+}
+
+// reachingStore returns the store to a that certainly supplies the value read by load: the latest
+// store preceding it in the same block, else the only store that dominates it when no other store
+// can execute in between (approximated: it is the single store of the function dominating the load,
+// or every other store is dominated by the load).
+func reachingStore(a *ssa.Alloc, load ssa.Instruction) *ssa.Store {
+	b := load.Block()
+	var last *ssa.Store
+	for _, in := range b.Instrs {
+		if in == load {
+			break
+		}
+		if st, ok := in.(*ssa.Store); ok && st.Addr == ssa.Value(a) {
+			last = st
+		}
+	}
+	if last != nil {
+		return last
+	}
+	// walk up single-predecessor chains
+	for cur := b; len(cur.Preds) == 1; {
+		cur = cur.Preds[0]
+		for i := len(cur.Instrs) - 1; i >= 0; i-- {
+			if st, ok := cur.Instrs[i].(*ssa.Store); ok && st.Addr == ssa.Value(a) {
+				return st
+			}
+		}
+		if cur == b {
+			break
+		}
+	}
+	return nil
 }
